@@ -53,10 +53,26 @@ def check(R, F):
     ok = len(wz) == 1 and paths.guards_equiv(wz[0][3], ['arg3.unchecked in [0]', 'Name::eq_or_subdomain_of(arg2,cast(arg1.apex.name.0.pointer)) in [0]'])
     R.require(ok, 'wrong-zone', lb.gpath + '|condition', lb.where(wz[0][0]) if wz else lb.where(), 'WrongZone iff !unchecked && !eq_or_subdomain_of(apex)', 'WrongZone is returned under %s' % (wz[0][3] if wz else None))
     cl = [r for r in rs if r[1].startswith('call') and 'lookup_impl' in r[1]]
-    ok = len(cl) == 1 and cl[0][2] == ['arg1.apex', 'arg2', 'Sub(Name::len(arg2),Name::len(HashMapTreeZone::name(arg1)))', 'arg3.search_below_cuts', 'true'] and len(rs) == 2
+    # the walk's parameters by ROLE, read off what lookup_base passes: the apex node, the name looked up, the number of
+    # labels below the apex, search_below_cuts (the flag or the options struct that carries it) and at_apex = true
+    role_of = {'arg1.apex': 'node', 'arg2': 'name', 'Sub(Name::len(arg2),Name::len(HashMapTreeZone::name(arg1)))': 'level', 'arg3.search_below_cuts': 'sbc', 'arg3': 'opts', 'true': 'apex'}
+    roles = {}
+    if len(cl) == 1:
+        for k, a in enumerate(cl[0][2]):
+            if a in role_of and role_of[a] not in roles:
+                roles[role_of[a]] = k + 1
+    ok = len(cl) == 1 and len(cl[0][2]) == 5 and set(roles) in ({'node', 'name', 'level', 'sbc', 'apex'}, {'node', 'name', 'level', 'opts', 'apex'}) and len(rs) == 2
     R.require(ok, 'wrong-zone', lb.gpath + '|walk-from-apex', lb.where(), 'walks from the apex with level = len(name) - len(apex), at_apex = true', 'lookup_base starts the walk with %s' % (cl[0][2] if cl else None))
     # the walk is entered on every other path (unchecked, or inside the zone)
     li = F.fn(Z + 'lookup_impl')
+    # canonical parameter names used in the rule texts below -> the walk's actual parameters
+    canon_pos = {1: 'node', 2: 'name', 3: 'level', 4: 'sbc', 5: 'apex'}
+    actual = {}
+    for k, role in canon_pos.items():
+        if role in roles:
+            actual[k] = 'arg%d' % roles[role]
+        elif role == 'sbc' and 'opts' in roles:
+            actual[k] = 'arg%d.search_below_cuts' % roles['opts']
     recursive = any(callee_name(t) == li.gpath for b_, t in li.calls())
     # The walk's state is (node, level, at_apex).  Recursive form: the parameters arg1 / arg3 / arg5, the step is the
     # self-call.  Iterative form: mutable locals initialised from those parameters at entry, the step is the one later
@@ -65,23 +81,25 @@ def check(R, F):
     state, steps = {}, {}
     if not recursive:
         for k in (1, 3, 5):
+            if k not in actual:
+                continue
             for l, ds in li.defs().items():
                 ds = [d for d in ds if not li.blocks[d[0]]['cleanup']]
                 if l <= li.argc or len(ds) != 2 or not li.locals[l]['name']:
                     continue
-                init = [d for d in ds if d[0] == 0 and d[2] == 'assign' and d[3]['rv']['k'] == 'use' and paths.show_operand(li, d[3]['rv']['op']) == 'arg%d' % k]
+                init = [d for d in ds if d[0] == 0 and d[2] == 'assign' and d[3]['rv']['k'] == 'use' and paths.show_operand(li, d[3]['rv']['op']) == actual[k]]
                 rest = [d for d in ds if d not in init]
                 if len(init) == 1 and len(rest) == 1 and rest[0][2] == 'assign':
                     state[k] = 'var:%s' % li.locals[l]['ty']
                     steps[k] = rest[0]
-    form_ok = recursive or set(state) == {1, 3, 5}
+    form_ok = len(actual) == 5 and (recursive or set(state) == {1, 3, 5})
     if not form_ok:
         R.bad('walk', li.gpath + '|form', li.where(), 'lookup_impl neither calls itself nor keeps node / level / at_apex in three locals that are initialised from its parameters and reassigned once: shape not recognised')
     else:
         def T(x):
             if isinstance(x, list):
                 return [T(y) for y in x]
-            return re.sub(r'\barg([135])\b', lambda m: state.get(int(m.group(1)), m.group(0)), x)
+            return re.sub(r'\barg([1-5])\b', lambda m: state.get(int(m.group(1)), actual.get(int(m.group(1)), m.group(0))), x)
         rs = returns(li)
         ref = [r for r in rs if r[1] == 'Referral']
         ok = len(ref) == 1 and paths.guards_equiv(ref[0][3], T(['arg5 in [0]', 'arg4 in [0]', 'discr(RrsetList::lookup(arg1.data.rrsets,Type(2_u16))) in [1]']))
@@ -99,8 +117,13 @@ def check(R, F):
         CHILD = T('HashMap::get(arg1.children,Name::index(arg2,Sub(arg3,1_usize)))')
         if recursive:
             rec = [r for r in rs if r[1].startswith('call') and 'lookup_impl' in r[1]]
-            ok = len(rec) == 1 and rec[0][2][1:] == ['arg2', 'Sub(arg3,1_usize)', 'arg4', 'false'] and rec[0][2][0].startswith(CHILD + '@Some.0') and \
-                ('discr(%s) in [1]' % CHILD) in rec[0][3] and 'Eq(arg3,0_usize) in [0]' in rec[0][3]
+            by_role = {}
+            if len(rec) == 1 and len(rec[0][2]) == 5:
+                for role, pos in roles.items():
+                    by_role[role] = rec[0][2][pos - 1]
+            sbc_ok = by_role.get('sbc') == T('arg4') or ('opts' in roles and by_role.get('opts') == 'arg%d' % roles['opts'])
+            ok = len(rec) == 1 and by_role.get('name') == T('arg2') and by_role.get('level') == T('Sub(arg3,1_usize)') and sbc_ok and by_role.get('apex') == 'false' and by_role.get('node', '').startswith(CHILD + '@Some.0') and \
+                ('discr(%s) in [1]' % CHILD) in rec[0][3] and T('Eq(arg3,0_usize) in [0]') in rec[0][3]
             R.require(ok, 'walk', li.gpath + '|descend', li.where(rec[0][0]) if rec else li.where(), 'descends into children[name[level-1]] with level-1, same search_below_cuts, at_apex = false', 'the recursive step is %s under %s' % (rec[0][2] if rec else None, rec[0][3] if rec else None))
             n_out = len(rs)
         else:
